@@ -23,17 +23,18 @@ type afCtx struct {
 	root      *frame
 	baseField string
 
-	statErrs  map[ssa.Value]*frame // error results of Stat(final path) -> frame of the call
-	writeOf   map[afCall]fval      // write call -> temp file it writes the bytes to
-	steps     []afCall             // registry of step calls (index = id in the automaton state)
-	stepID    map[afCall]int
-	relevant  map[*frame]bool // frames that contain a step or touch a temp file
-	escapes   bool
-	undecided bool
-	violated  bool
-	memo      map[string][]afOutcome
-	overflow  bool
-	guard     map[afCall]*afGuard // RENAMEGUARD results per publishing call
+	statErrs   map[ssa.Value]*frame // error results of Stat(final path) -> frame of the call
+	weakProbes map[ssa.Value]string // error results of probes that cannot justify the exists-shortcut
+	writeOf    map[afCall]fval      // write call -> temp file it writes the bytes to
+	steps      []afCall             // registry of step calls (index = id in the automaton state)
+	stepID     map[afCall]int
+	relevant   map[*frame]bool // frames that contain a step or touch a temp file
+	escapes    bool
+	undecided  bool
+	violated   bool
+	memo       map[string][]afOutcome
+	overflow   bool
+	guard      map[afCall]*afGuard // RENAMEGUARD results per publishing call
 }
 
 type afGuard struct {
@@ -261,6 +262,7 @@ func (a *afCtx) addStep(k afCall) {
 func (a *afCtx) check() {
 	c, P := a.c, a.c.P
 	a.statErrs = map[ssa.Value]*frame{}
+	a.weakProbes = map[ssa.Value]string{}
 	a.writeOf = map[afCall]fval{}
 	a.stepID = map[afCall]int{}
 	a.relevant = map[*frame]bool{}
@@ -308,7 +310,9 @@ func (a *afCtx) check() {
 				c.Undecided(fn, P.InstrPos(call), "temp pattern", "cannot decide whether pattern "+shape+" contains a character outside the node-name alphabet")
 			}
 			return
-		case "os.Stat", "os.Lstat":
+		case "os.Stat", "os.Open":
+			// a probe that says what Load will see: it follows symbolic links like
+			// os.ReadFile/os.Open and is applied to exactly the final path
 			if a.isFinal(args[0], fr) {
 				if e, _ := errorValue(call); e != nil {
 					a.statErrs[e] = fr
@@ -316,6 +320,13 @@ func (a *afCtx) check() {
 						a.markRelevant(fr) // an "exists" helper: inlined, its outcome carries the exists flag
 					}
 				}
+			}
+			return
+		case "os.Lstat", "os.Readlink", "path/filepath.Glob", "os.ReadDir", "io/ioutil.ReadDir", "path/filepath.EvalSymlinks":
+			// probes that do not say what Load will see (a dangling link or a link loop
+			// "exists" for Lstat; a listing or a glob is not an open of the node)
+			if e, _ := errorValue(call); e != nil {
+				a.weakProbes[e] = callName(call)
 			}
 			return
 		case "os.Rename":
@@ -702,6 +713,7 @@ func (a *afCtx) sequence() {
 		last     map[int]int    // stage reached -> id of the last completed step
 		complete bool
 		shortcut bool
+		weak     string // a probe other than Stat/Open of the final path succeeded on a path returning success
 	}
 	per := map[*ssa.Return]*retRes{}
 	var order []*ssa.Return
@@ -733,6 +745,13 @@ func (a *afCtx) sequence() {
 		if exf {
 			rr.shortcut = true
 			return
+		}
+		if stage == 0 {
+			for e, what := range a.weakProbes {
+				if nilness(st, e) == triNo {
+					rr.weak = what
+				}
+			}
 		}
 		if stage == 5 {
 			rr.complete = true
@@ -799,6 +818,12 @@ func (a *afCtx) sequence() {
 				c.OK(P.InstrPos(r), "success return of "+fname+" (already exists)", "reached only with a nil error from Stat of the final path; sound because node files appear only by rename", true)
 			}
 			continue
+		}
+		if rr.weak != "" {
+			a.violated = true
+			c.Violation(fn, P.InstrPos(r), "already-stored shortcut relies on "+rr.weak,
+				fmt.Sprintf("%s skips the write and reports success because %s succeeded: that does not say what Load will see — only os.Stat (or os.Open) of exactly the final path follows symbolic links as os.ReadFile does; with a dangling link or a link loop under the node's name the node is reported stored and the next Load fails", fname, rr.weak), rr.missing[0])
+			delete(rr.missing, 0)
 		}
 		for stage := 0; stage < 5; stage++ {
 			path, ok := rr.missing[stage]
